@@ -43,6 +43,7 @@ type Gen struct {
 	CatchBias bool // put catching primitives next to failing non-primitives
 	NoPosts   bool
 	Populated bool // C13: fully populated values only
+	NoExtra   bool // no destination fields outside the schema
 }
 
 func (g *Gen) id() int { g.nextID++; return g.nextID }
@@ -366,7 +367,7 @@ func (g *Gen) NodeOf(kind string, depth int) *Node {
 			}
 			n.Fields = append(n.Fields, f)
 		}
-		if r.P(30, 100) {
+		if !g.NoExtra && r.P(30, 100) {
 			n.Extra = []string{"Zextra"}
 		}
 		k := rng.Pick(r, []int{0, 0, 0, 1, 2})
@@ -382,7 +383,7 @@ func (g *Gen) NodeOf(kind string, depth int) *Node {
 }
 
 // effective key of a field when the input is a plain Go map (no source tag): zog tag, else schema key
-func (f Field) mapKey() string {
+func (f Field) MapKey() string {
 	for _, t := range f.Tags {
 		if t[0] == "zog" {
 			return t[1]
@@ -461,7 +462,7 @@ func (g *Gen) Input(n *Node) V {
 			if r.P(15, 100) {
 				continue // missing key
 			}
-			out.O = append(out.O, KV{f.mapKey(), g.Input(f.S)})
+			out.O = append(out.O, KV{f.MapKey(), g.Input(f.S)})
 		}
 		if r.P(10, 100) {
 			out.O = append(out.O, KV{"unknown_key", VInt(1)})
